@@ -4,6 +4,7 @@ import (
 	"context"
 	"errors"
 	"fmt"
+	"go.opentelemetry.io/otel/trace"
 	"math/rand"
 	"net"
 	"strings"
@@ -176,6 +177,19 @@ func c13Success(r *core.Run, ci int64, rng *rand.Rand, crev, srev int, dial bool
 	}
 	ctx, cancel := context.WithTimeout(context.Background(), 30*time.Second)
 	defer cancel()
+	// every second case the follow-up queries run inside a span: the trace context goes into the
+	// Query packet only at revisions that define the field
+	var span *ref.Trace
+	if ci%2 == 0 {
+		span = &ref.Trace{State: []string{"", "k=v"}[(ci/2)%2], Flags: 1}
+		for i := range span.TraceID {
+			span.TraceID[i] = byte(ci) + byte(i)*7 | 1
+		}
+		for i := range span.SpanID {
+			span.SpanID[i] = byte(ci>>3) + byte(i)*5 | 1
+		}
+		ctx = trace.ContextWithSpanContext(ctx, libSpan(span))
+	}
 	var client *ch.Client
 	var err error
 	var gotProg *proto.Progress
